@@ -37,6 +37,8 @@ type joinCase struct {
 	body            []byte
 	reqSender       string
 	reqReceiver     string
+	fault           string // injected storage fault: "", "devkeys", "nskek", "aslabel", "askek"
+	faults          M      // the faults this request actually meets (labels may be shared within a batch)
 }
 
 func (c *ctx) genCFListBytes() []byte {
@@ -73,6 +75,12 @@ func (c *ctx) genJoinCase(i int) *joinCase {
 	if c.rnd.Intn(3) != 0 {
 		jc.asKEK = c.bytesN(c.pick(16, 24, 32))
 		jc.asLabel = fmt.Sprintf("as-%d", i)
+	}
+	if c.rnd.Intn(10) == 0 {
+		jc.fault = c.pickS("devkeys", "nskek", "aslabel", "askek")
+		if jc.fault == "askek" && jc.asKEK == nil {
+			jc.fault = ""
+		}
 	}
 	// the uplink frame
 	var phy lorawan.PHYPayload
@@ -127,7 +135,7 @@ func joinEvent(jc *joinCase, status int, body []byte, concurrent bool) M {
 		"nwkkey": bs(jc.nwk[:]), "appkey": bs(jc.app[:]), "deveui": bs(jc.devEUI[:]), "joineui": bs(jc.joinEUI[:]), "netid": bs(jc.netID[:]),
 		"devnonce": jc.devNonce, "jn3": jn, "devaddr": bs(jc.devAddr[:]),
 		"dl": M{"optneg": jc.dl.OptNeg, "rx2dr": int(jc.dl.RX2DataRate), "rx1off": int(jc.dl.RX1DROffset)}, "rxdelay": jc.rxDelay, "cflist": cf,
-		"nskek": bs(jc.nsKEK), "askek": bs(jc.asKEK), "txid": le32(jc.txid), "sender": bs([]byte(jc.reqSender)), "receiver": bs([]byte(jc.reqReceiver)), "http": status}
+		"nskek": bs(jc.nsKEK), "askek": bs(jc.asKEK), "txid": le32(jc.txid), "sender": bs([]byte(jc.reqSender)), "receiver": bs([]byte(jc.reqReceiver)), "http": status, "faults": jc.faults}
 	// JoinAnsPayload and RejoinAnsPayload have the same JSON fields
 	var ans backend.JoinAnsPayload
 	if err := json.Unmarshal(body, &ans); err != nil {
@@ -159,21 +167,50 @@ func (c *ctx) joinBatch(n int, concurrent bool) error {
 			aslabels[jc.devEUI] = jc.asLabel
 		}
 	}
+	// injected storage faults (the callbacks fail with an error that is not ErrDevEUINotFound)
+	devFault, labelFault, kekFault := map[lorawan.EUI64]bool{}, map[lorawan.EUI64]bool{}, map[string]bool{}
+	for _, jc := range cases {
+		switch jc.fault {
+		case "devkeys":
+			devFault[jc.devEUI] = true
+		case "nskek":
+			kekFault[jc.reqSender] = true
+		case "aslabel":
+			labelFault[jc.devEUI] = true
+		case "askek":
+			kekFault[jc.asLabel] = true
+		}
+	}
 	// make the per-case expectation consistent with the shared KEK table
 	for _, jc := range cases {
 		if k, ok := keks[jc.reqSender]; ok {
 			jc.nsKEK = k
 		}
+		jc.faults = M{"dev": devFault[jc.devEUI], "nskek": kekFault[jc.reqSender], "aslabel": labelFault[jc.devEUI], "askek": jc.asKEK != nil && kekFault[jc.asLabel]}
 	}
+	storage := fmt.Errorf("storage failure")
 	h, err := joinserver.NewHandler(joinserver.HandlerConfig{
 		GetDeviceKeysByDevEUIFunc: func(e lorawan.EUI64) (joinserver.DeviceKeys, error) {
+			if devFault[e] {
+				return joinserver.DeviceKeys{}, storage
+			}
 			if dk, ok := keys[e]; ok {
 				return dk, nil
 			}
 			return joinserver.DeviceKeys{}, joinserver.ErrDevEUINotFound
 		},
-		GetKEKByLabelFunc:         func(label string) ([]byte, error) { return keks[label], nil },
-		GetASKEKLabelByDevEUIFunc: func(e lorawan.EUI64) (string, error) { return aslabels[e], nil },
+		GetKEKByLabelFunc: func(label string) ([]byte, error) {
+			if kekFault[label] {
+				return nil, storage
+			}
+			return keks[label], nil
+		},
+		GetASKEKLabelByDevEUIFunc: func(e lorawan.EUI64) (string, error) {
+			if labelFault[e] {
+				return "", storage
+			}
+			return aslabels[e], nil
+		},
 	})
 	if err != nil {
 		return err
